@@ -360,7 +360,69 @@ func lenExprOf(v ssa.Value, recv ssa.Value) string {
 			return "len(recv)"
 		}
 	}
+	// recv.Len() (or T2(recv).Len()) of a Len method that itself reports the receiver's length
+	if call, ok := v.(*ssa.Call); ok {
+		if g := flow.StaticCallee(call); g != nil && g.Name() == "Len" && g.Signature.Recv() != nil && len(call.Call.Args) == 1 && len(g.Params) == 1 && flow.Peel(call.Call.Args[0]) == recv {
+			g = delegated(g)
+			if rv := singleReturn(g); rv != nil {
+				if x, isLen := builtinOf(rv, "len"); isLen && flow.Peel(x) == ssa.Value(g.Params[0]) {
+					return "len(recv)"
+				}
+			}
+		}
+	}
 	return ""
+}
+
+// delegated: a one-parameter method whose whole body is `return T2(recv).Same()`, T2 with the same underlying
+// type, stands for the method it forwards to (followed up to three times).
+func delegated(f *ssa.Function) *ssa.Function {
+	for i := 0; i < 3; i++ {
+		if f == nil || f.Blocks == nil || len(f.Params) != 1 {
+			break
+		}
+		call, ok := singleReturn(f).(*ssa.Call)
+		if !ok {
+			break
+		}
+		g := flow.StaticCallee(call)
+		if g == nil || g.Blocks == nil || g.Name() != f.Name() || len(call.Call.Args) != 1 || len(g.Params) != 1 || g == f {
+			break
+		}
+		if flow.Peel(call.Call.Args[0]) != ssa.Value(f.Params[0]) || !types.Identical(g.Params[0].Type().Underlying(), f.Params[0].Type().Underlying()) {
+			break
+		}
+		pure := true
+		flow.Instrs(f, func(in ssa.Instruction) {
+			switch in.(type) {
+			case *ssa.Call, *ssa.Return, *ssa.ChangeType, *ssa.Convert, *ssa.DebugRef:
+			default:
+				pure = false
+			}
+		})
+		if !pure {
+			break
+		}
+		f = g
+	}
+	return f
+}
+
+// sameLenCall: a and b are two calls of the same Len method on the same receiver value.
+func sameLenCall(a, b ssa.Value) bool {
+	ca, ok1 := a.(*ssa.Call)
+	cb, ok2 := b.(*ssa.Call)
+	if !ok1 || !ok2 {
+		return false
+	}
+	ga, gb := flow.StaticCallee(ca), flow.StaticCallee(cb)
+	if ga == nil || ga != gb || ga.Name() != "Len" || len(ca.Call.Args) != 1 || len(cb.Call.Args) != 1 {
+		return false
+	}
+	if flow.Peel(ca.Call.Args[0]) != flow.Peel(cb.Call.Args[0]) {
+		return false
+	}
+	return lenExprOf(a, flow.Peel(ca.Call.Args[0])) != ""
 }
 
 func (c *Ctx) datatypeFacts() []*typeFacts {
@@ -412,6 +474,7 @@ func (c *Ctx) fillTypeFacts(tf *typeFacts) {
 		tf.Problems = append(tf.Problems, "type lacks Len/Padding/Serialize")
 		return
 	}
+	lenF, padF = delegated(lenF), delegated(padF)
 	_, tf.StringKind = T.Underlying().(*types.Basic)
 	if b, ok := T.Underlying().(*types.Basic); ok {
 		tf.StringKind = b.Kind() == types.String
@@ -444,7 +507,7 @@ func (c *Ctx) padFacts(tf *typeFacts, padF *ssa.Function) {
 			tf.PadConst = k
 		} else if bo, ok := rv.(*ssa.BinOp); ok && bo.Op == token.SUB {
 			// P(x) − x
-			env := &cong.Env{MaxDepth: 3, IsSym: func(s ssa.Value) bool { return s == bo.Y },
+			env := &cong.Env{MaxDepth: 3, IsSym: func(s ssa.Value) bool { return s == bo.Y || sameLenCall(s, bo.Y) },
 				Callee: func(call *ssa.Call) *ssa.Function {
 					g := flow.StaticCallee(call)
 					if g == nil || g.Signature.Recv() != nil {
